@@ -97,3 +97,16 @@ func fullKey(cmd *Cmd) Item {
 	}
 	return k
 }
+
+// FilterText is the filter expression text a command sends (placeholders are
+// numbered after those of the key condition, as the drivers render them).
+func FilterText(cmd *Cmd) string {
+	if cmd.Filter == nil {
+		return ""
+	}
+	b := NewBinder()
+	if cmd.Part != nil {
+		renderKeyCond(b, cmd.HashAttr, *cmd.Part, cmd.Sort)
+	}
+	return cmd.Filter.Render(b)
+}
